@@ -207,6 +207,45 @@ func boundaryCases() []GCase {
 		h := []GBlock{{100, 10}, {99, 3}}
 		return obsWith(nil, []GProp{{Kind: 1, Upk: 95, Log: 45 + i, Blk: 100, Hash: 777 + i, ExtBlk: 5}, {Kind: 0, Upk: 96 + i, Blk: 100, Hash: 10}, {Kind: 0, Upk: 90 + i, Blk: 99, Hash: 3}}, h)
 	})})
+	// fork at the winning height: the minority sibling (no quorum) has the greater hash
+	add(GCase{Family: "fork-minority-greater-hash", N: 4, F: 1, Seq: 79, Digest: 1, Obs: nObs(4, func(i int) GObs {
+		h := []GBlock{{100, 5}, {99, 3}}
+		if i == 2 {
+			h = []GBlock{{100, 9}, {99, 3}}
+		}
+		return obsWith(nil, []GProp{prop(i)}, h)
+	})})
+	add(GCase{Family: "fork-minority-greater-hash", N: 7, F: 2, Seq: 80, Digest: 2, Obs: nObs(7, func(i int) GObs {
+		h := []GBlock{{200, 5}, {199, 3}}
+		if i >= 5 {
+			h = []GBlock{{200, 900 + i}, {199, 3}}
+		}
+		return obsWith(nil, []GProp{prop(i)}, h)
+	})})
+	// several proposals of ONE history round are performed in this round (adjacent and not)
+	for v, idx := range [][]int{{0, 1}, {1, 2}, {0, 2}, {0, 1, 2, 3}} {
+		idx := idx
+		round := []GProp{{Kind: 1, Upk: 300, Log: 61, Blk: 50, Hash: 7}, {Kind: 1, Upk: 300, Log: 62, Blk: 50, Hash: 7},
+			{Kind: 1, Upk: 301, Log: 63, Blk: 50, Hash: 7}, {Kind: 0, Upk: 302, Blk: 50, Hash: 7}}
+		add(GCase{Family: "several-performed-in-one-history-round", N: 4, F: 1, Seq: uint64(130 + v), Digest: 1, PrevKind: 2,
+			Prev: &GOutcome{Surf: [][]GProp{{{Kind: 0, Upk: 399, Blk: 51, Hash: 7}}, round}},
+			Obs: nObs(3, func(i int) GObs {
+				var perf []GRes
+				for _, j := range idx {
+					p := round[j]
+					perf = append(perf, honest(p.Kind, p.Upk, p.Log))
+				}
+				return obsWith(perf, nil, hist)
+			})})
+	}
+	// results of an upkeep whose type is neither condition nor log: the duplicate-work-id rule still applies
+	{
+		x := honest(2, 880, 0)
+		add(GCase{Family: "unknown-upkeep-type-duplicate", N: 4, F: 1, Seq: 140, Digest: 1, Obs: []GObs{
+			obsWith([]GRes{x, x}, nil, hist), obsWith(nil, nil, hist), obsWith([]GRes{honest(0, 1, 0)}, nil, hist)}})
+		add(GCase{Family: "unknown-upkeep-type-quorum", N: 4, F: 1, Seq: 141, Digest: 1, Obs: []GObs{
+			obsWith([]GRes{x}, []GProp{{Kind: 2, Upk: 881, Blk: 3, Hash: 3}}, hist), obsWith([]GRes{x}, nil, hist), obsWith(nil, nil, hist)}})
+	}
 	// one oracle lists a block twice, not adjacently: the observation is invalid as a whole and must not
 	// give that block two votes
 	add(GCase{Family: "duplicate-block-number-non-adjacent", N: 4, F: 1, Seq: 77, Digest: 1, Obs: nObs(4, func(i int) GObs {
@@ -305,6 +344,9 @@ func randomCase(r *Rng) GCase {
 	var cands []GRes
 	for i := 0; i < k; i++ {
 		g := honest(r.Intn(2), 1+r.Intn(k+3), 0)
+		if r.Chance(1, 12) {
+			g.Kind = 2 // an upkeep type that is neither condition nor log
+		}
 		if g.Kind == 1 {
 			g.Log = 1 + r.Intn(2*k+2)
 		}
@@ -366,10 +408,20 @@ func randomCase(r *Rng) GCase {
 			}
 			po.Surf = append(po.Surf, round)
 		}
-		if len(cands) > 0 && r.Chance(1, 3) {
-			// a proposal in history for a unit that becomes agreed this round
-			g := cands[0]
-			po.Surf = append([][]GProp{{{Kind: g.Kind, Upk: g.Upk, Log: g.Log, Blk: 1, Hash: 1}}}, po.Surf...)
+		if len(cands) > 0 && r.Chance(1, 2) {
+			// proposals in ONE history round for units that (may) become agreed this round
+			var rd []GProp
+			seenU := map[string]bool{}
+			for j := 0; j < len(cands) && j < 1+r.Intn(4); j++ {
+				g := cands[j]
+				key := fmt.Sprintf("%d/%d/%d", g.Kind, g.Upk, g.Log*g.Kind)
+				if used[key] || seenU[key] {
+					continue
+				}
+				seenU[key] = true
+				rd = append(rd, GProp{Kind: g.Kind, Upk: g.Upk, Log: g.Log, Blk: 1, Hash: 1})
+			}
+			po.Surf = append([][]GProp{rd}, po.Surf...)
 			if len(po.Surf) > 20 {
 				po.Surf = po.Surf[:20]
 			}
